@@ -1,12 +1,114 @@
 META = dict(
     engine='seqx+cosched',
     technique='explicit-state model checking: BFS to closure over all register/unregister/array-init/destruct/set/get/test_and_set histories of the real info.c (tracking allocator, map model), plus preemption-bounded exhaustive schedule enumeration of concurrent set/get/test_and_set against array growth',
-    level_text='All reachable states of an info registry with 3-4 names and 1-2 object arrays (values NULL/p1/p2/constructed defaults) are enumerated on the real code and compared with a map model after every operation (identifiers distinct, lookups, every slot, constructor/destructor calls, heap block sizes); every schedule with <= b preemptions of 6 two/three-thread scripts in which slot accesses race with array growth is executed and checked for linearizability.',
-    level_note='Identifiers are used only while registered (API contract); 3 names (4 in the registry-only system), 2 arrays; E1: sequential consistency at instrumented accesses, 2-3 threads with 1-3 operations each; info.c is compiled into the harness TU with malloc/calloc/realloc/free routed to an exact-size poisoning allocator.',
+    level_text='All reachable states of an info registry with 3-4 names and 1-2 object arrays (values NULL/p1/p2/constructed defaults) are enumerated on the real code and compared with a map model after every operation (identifiers distinct, lookups, every slot, constructor/destructor calls, heap block sizes); every schedule with <= b preemptions of 9 hand-written two/three-thread scripts in which slot accesses race with array growth is executed and checked for linearizability; plus GENERATED script families: all scripts pre-state {array knows slot 0 only (realloc growth), array has no storage (calloc growth), array knows all slots (growth only after a register)} x T0: 1..a ops || T1: 1..b ops (|| T2) over the alphabet {get/set/test_and_set(expect NULL | expect the value of the other thread) on identifier 0 | 1 | the identifier returned by a register of the same thread, register(one of two fresh names), lookup}, minus contract violations (identifier not registered at the call), up to thread renaming, simplest first, each family under a wall budget - quick: (1,1) b=1 and b=2, (2,1) b=1; thorough: (1,1) b=2 on the larger alphabet, (2,1) b=1-2, (2,2) b=2, (1,1,1) b=1; same linearizability oracle.',
+    level_note='Identifiers are used only while registered (API contract); 3 names (4 in the registry-only system), 2 arrays; E1: sequential consistency at instrumented accesses, 2-3 threads with 1-3 operations each; generated families are cut by a wall budget on a loaded machine (exhaustive:false for that leg, scripts_explored < scripts_after_symmetry); info.c is compiled into the harness TU with malloc/calloc/realloc/free routed to an exact-size poisoning allocator.',
 )
 RULE = ("seqx: BFS over operation histories on the real registry, deduplicated by canonical state (real list order, max_id, "
         "array sizes and slot contents + model); a state is non-trivial when its shortest history has >= 2 operations. "
-        "cosched: every schedule with <= b preemptions; non-trivial = at least one preemption")
+        "cosched (hand-written scripts, and every script of the generated families 'family/g*': see the leg's alphabet, scripts_generated / _after_contract / "
+        "_after_symmetry / _explored / _completed): every schedule with <= b preemptions; non-trivial = at least one preemption")
+
+
+
+# ---- generated (bounded-exhaustive) script families: c41gen.py enumerates, info_conc.c parses the script text; see NOTES.md ----
+# label, shape (ops per thread), threads with exactly that many ops, alphabet, pre-states, preemption bound, wall budget (s), scripts per engine invocation
+FAMILIES = {
+    'quick': [
+        dict(label='g11_b1', shape=(1, 1), exact=(), alphabet='std', pre='ABC', bound=1, allow=0.6, budget=8, batch=12),
+        dict(label='g21_b1', shape=(2, 1), exact=(0,), alphabet='mini', pre='ABC', bound=1, allow=0.6, budget=14, batch=12),
+        dict(label='g11_b2', shape=(1, 1), exact=(), alphabet='std', pre='ABC', bound=2, allow=3, budget=14, batch=4),
+    ],
+    'thorough': [
+        dict(label='g11_b2', shape=(1, 1), exact=(), alphabet='full', pre='ABC', bound=2, allow=3, budget=50, batch=4),
+        dict(label='g21_b1', shape=(2, 1), exact=(0,), alphabet='std', pre='ABC', bound=1, allow=0.6, budget=60, batch=16),
+        dict(label='g21_b2', shape=(2, 1), exact=(0,), alphabet='mini', pre='ABC', bound=2, allow=3, budget=70, batch=4),
+        dict(label='g22_b2', shape=(2, 2), exact=(0, 1), alphabet='mini', pre='AB', bound=2, allow=8, budget=50, batch=2),
+        dict(label='g111_b1', shape=(1, 1, 1), exact=(), alphabet='std', pre='ABC', bound=1, allow=3, budget=50, batch=4),
+    ],
+}
+
+
+def gen_family(ctx, exe, f, procs, jobs):
+    """Explore one generated family: parallel engine invocations over batches of scripts (simplest first) until everything is
+    done or the wall budget is used up; one aggregated evidence leg."""
+    import os, sys, json, time, statistics, vlib
+    from concurrent.futures import ThreadPoolExecutor
+    sys.path.insert(0, os.path.dirname(os.path.abspath(__file__)))
+    import c41gen
+    counts, names, alphabet = c41gen.family(f['shape'], f['alphabet'], f['pre'], f['exact'])
+    batches = [(i, names[i:i + f['batch']]) for i in range(0, len(names), f['batch'])]
+    t0 = time.time(); t_end = t0 + f['budget']
+    mine = 'fam:%s:' % f['label']
+    nviol0 = len(ctx.violations)
+    os.makedirs(os.path.join(vlib.OUT, 'gen'), exist_ok=True)
+    def one(b):
+        i, part = b
+        left = t_end - time.time()
+        if left < 1.0 or len(ctx.violations) >= nviol0 + 3:
+            return          # budget used up (or violations already reported): not explored -> exhaustive:false
+        gf = os.path.join(vlib.OUT, 'gen', 'C41-%s-%d-%d.txt' % (f['label'], i, os.getpid()))
+        open(gf, 'w').write('\n'.join(part) + '\n')
+        dl = max(2, int(left), int(f['allow'] * len(part) + 0.999))      # a started batch may always use `allow` seconds per script
+        ctx.run_engine(exe, ['--gen-file', gf, '--bound', str(f['bound']), '--scenario', 'all', '--jobs', str(jobs), '--deadline', str(dl), '--outdir', vlib.OUT],
+                       label='%s%d' % (mine, i), timeout=dl + 300)
+        try: os.unlink(gf)
+        except OSError: pass
+    with ThreadPoolExecutor(max_workers=procs) as ex:
+        list(ex.map(one, batches))
+    legs = [l for l in ctx.legs if str(l.get('leg', '')).startswith(mine)]
+    ctx.legs[:] = [l for l in ctx.legs if not str(l.get('leg', '')).startswith(mine)]
+    pos = {nm: i for i, nm in enumerate(names)}
+    legs.sort(key=lambda l: pos.get(l['name'], 0))
+    complete = [l for l in legs if l.get('exhaustive')]
+    outs = [int(l.get('distinct_outcomes', 0)) for l in (complete or legs)]
+    samples = []
+    for l in sorted(legs, key=lambda l: -int(l.get('distinct_outcomes', 0)))[:2] + legs[:1]:
+        for sm in l.get('samples', [])[:1]:
+            samples.append(dict(sm, script=l['name']))
+    nviol = sum(int(l.get('violations', 0)) for l in legs)
+    nex = sum(int(l.get('executions', 0)) for l in legs)
+    ctx.add_leg(name=f['label'], leg='family', engine='cosched', shape=list(f['shape']), exact_threads=list(f['exact']), prestates=f['pre'],
+                bound=f['bound'], alphabet=alphabet, scripts_generated=counts['generated'], scripts_after_contract=counts['after_contract'],
+                scripts_after_symmetry=counts['after_symmetry'], scripts_explored=len(legs), scripts_completed=len(complete),
+                states=sum(int(l.get('states', 0)) for l in legs), transitions=sum(int(l.get('transitions', 0)) for l in legs),
+                executions=nex, nontrivial=sum(int(l.get('nontrivial', 0)) for l in legs),
+                distinct_outcomes=sum(outs), outcomes_per_script=dict(min=min(outs), median=statistics.median(outs), max=max(outs)) if outs else {},
+                single_outcome_scripts=sum(1 for o in outs if o <= 1), max_points=max([int(l.get('max_points', 0)) for l in legs] or [0]),
+                exhaustive=(len(complete) == counts['after_symmetry']), violations=nviol, last_script_explored=legs[-1]['name'] if legs else None,
+                wall_s=round(time.time() - t0, 2), samples=samples)
+    sys.stderr.write('C41 family %s (bound %d): %d generated, %d after contract, %d after symmetry; explored %d (complete %d), %d schedules, outcomes/script min %s max %s, %d single-outcome, %.1fs\n'
+                     % (f['label'], f['bound'], counts['generated'], counts['after_contract'], counts['after_symmetry'], len(legs), len(complete), nex,
+                        min(outs) if outs else '-', max(outs) if outs else '-', sum(1 for o in outs if o <= 1), time.time() - t0))
+    # vacuity guard: a family whose scripts all have one outcome collides with nothing
+    if len(complete) >= 8 and max(outs) <= 1 and not nviol:
+        ctx.broken.append('family %s: every one of the %d explored scripts has a single outcome: the alphabet collides with nothing' % (f['label'], len(complete)))
+    # the replay file of a generated script is self-contained (scenario = script text); add the expansion for the reader
+    for rp, lab in ctx.violations[nviol0:]:
+        try:
+            o = json.load(open(rp))
+            if o.get('scenario', '').startswith('g_'):
+                o['script'] = c41gen.describe(o['scenario']); o['script_text'] = o['scenario']
+                json.dump(o, open(rp, 'w'), separators=(',', ':'))      # compact: cosched's replay reader looks for "scenario":" and "choices":[
+        except (OSError, ValueError):
+            pass
+
+
+def families(ctx, exe):
+    import os, vlib
+    sel = os.environ.get('C41_FAMILIES')                    # development: comma-separated labels
+    scale = float(os.environ.get('C41_BUDGET_SCALE', '1'))   # development: multiply the wall budgets
+    if ctx.tier == 'thorough' and 'C41_BUDGET_SCALE' not in os.environ:
+        # the other legs are deadline-bound; when the machine is not overloaded they finish early and the families get what is left of
+        # the tier's ~20 minutes (never less than their nominal budgets, at most 3 times as much)
+        import time
+        scale = max(1.0, min(3.0, (1080 - (time.time() - ctx.t0)) / sum(f['budget'] for f in FAMILIES[ctx.tier])))
+    for f in FAMILIES[ctx.tier]:
+        if sel and f['label'] not in sel.split(','):
+            continue
+        # small scripts (bound 1): one worker per invocation, one invocation per core; larger trees: half the invocations, 2 workers each
+        procs, jobs = (max(1, min(16, vlib.NJOBS)), 1) if f['bound'] <= 1 else (max(1, min(8, vlib.NJOBS // 2)), 2)
+        gen_family(ctx, exe, dict(f, budget=f['budget'] * scale), procs, jobs)
 
 
 def build_seq(ctx):
@@ -18,12 +120,17 @@ def build_conc(ctx):
 
 
 def check(ctx):
+    import os
     quick = ctx.tier == 'quick'
-    ctx.run_engine(build_seq(ctx), ['--outdir', '/verif/out', '--deadline', '40' if quick else '600', '--depth2', '5' if quick else '0'],
-                   label='info_seq', timeout=1200)
-    # two-thread scripts: bound 2 (quick) / 3 (thorough); three-thread scripts: bound 1 (quick) / 2 (thorough)
-    ctx.run_cosched(build_conc(ctx), 2 if quick else 3, deadline=(60 if quick else 700), label='info_conc',
-                    extra=['--cap3', '1' if quick else '2'])
+    which = os.environ.get('C41_ONLY', '')        # development switch: 'gen' = generated families only, 'hand' = everything else
+    if which in ('', 'hand'):
+        ctx.run_engine(build_seq(ctx), ['--outdir', '/verif/out', '--deadline', '40' if quick else '600', '--depth2', '5' if quick else '0'],
+                       label='info_seq', timeout=1200)
+        # two-thread scripts: bound 2 (quick) / 3 (thorough); three-thread scripts: bound 1 (quick) / 2 (thorough)
+        ctx.run_cosched(build_conc(ctx), 2 if quick else 3, deadline=(60 if quick else 500), label='info_conc',
+                        extra=['--cap3', '1' if quick else '2'])
+    if which in ('', 'gen'):
+        families(ctx, build_conc(ctx))
     return ctx.finish(RULE, ["identifiers are passed to set/get/test_and_set only while they are registered (API contract)",
                              "sequential consistency at instrumented accesses (no weak-memory effects) in the concurrent leg",
                              "when an info without destructor is unregistered, a stored value may survive or be cleared (the statement is silent)"])
